@@ -19,6 +19,10 @@ CHECKS = {
    technique="runtime monitoring: (a) fault injection catalogue over every preprocessing check, (b) online trace checker commit-before-reveal over the event log under adversarial schedulers, (c) predictor monitor comparing challenges recomputed from public openings with probes of the challenges used",
    text="(a) every preprocessing verification step is attacked on the wire (single/all recipients, persistent) or consistently through taps; honest receivers must return Err and must not send any online-phase message afterwards. (b) for every party and round the first reveal send must follow the receipt of every commitment, checked on honest runs under starving/random/PCT schedules with capacities 1,2,unbounded. (c) a passive predictor recomputes KOS chi_0, the aBit test seed and the bucket permutation from the coin-toss openings; exact match = predictable (recorded known findings), equal chi_0 in two sessions = reuse.",
    note="Cheating with inherent detection failure above 2^-64 is not in the must-abort catalogue. (c) only knows the probed challenges. Known findings: the three challenges are derived from the initial toss and chi is reused (not a small patch)."),
+ "C07": dict(level="fault_enumeration", ref="DESIGN.md §3 C07",
+   technique="runtime monitoring: offline checker over the recorded transcript (hash-set window scan for the probed global key and XOR sets of size 2 and 3), on honest runs and on every execution of the C03/C04 fault catalogues",
+   text="For every honest party T and execution the pooled transcript is scanned for delta_T (probe): the key at every byte offset in both byte orders, two windows XORing to it (every offset, mixed byte orders, linear time), and in honest 2-party runs three decoded 128-bit fields XORing to it. Honest runs cover n=2..4 with NOT gates and all roles; adversarial runs are the C03 and C04 catalogues incl. the cheater-continues variants.",
+   note="Certifies only XOR sets of size <= 3 of byte windows / decoded fields; single leaked bits are out of reach. One known finding: the leaky-AND check opening reveals delta of a party that simultaneously aborts."),
  "C08": dict(level="fault_enumeration", ref="DESIGN.md §3 C08",
    technique="runtime monitoring with fault injection: adversarial channel rewrites/drops messages or crashes the peer; outcome, exact deadlock detection and counting allocator observed per execution (sharded sub-processes)",
    text="For every message a corrupted party sends in the fault configurations (n=2 complete, n=3 sampled in quick / complete in thorough) the message is replaced by every byte-level class and every structure-aware mutation class of its decoded tree, or the peer vanishes after it (both send-to-dead semantics). Each honest party must end in Ok or Err: a caught panic, an exact 'no runnable task' state, a single allocation request above the bound or a process abort is a violation.",
